@@ -172,3 +172,42 @@ Definition spec_query (s : sdb) (q : query) : ans :=
   | QIter k None => AIter (concat (map (fun c => dict_values (sel k c)) (s_cats s))) false
   | QIter k (Some cs) => let (l, b) := s_iter (s_cats s) k cs in AIter l b
   end.
+
+(** * What the operations mean on the abstract database *)
+
+(** [keep_which]: empty means all three kinds *)
+Definition keeps (which : list kind) (k : kind) : bool :=
+  match which with
+  | [] => true
+  | _ => existsb (fun k' => match k, k' with KM, KM | KE, KE | KS, KS => true | _, _ => false end) which
+  end.
+
+(** [keep_categories] / [exclude_categories]: empty means no restriction *)
+Definition cat_selected (keep excl : list cat) (c : cat) : bool :=
+  (match keep with [] => true | _ => mem_cat c keep end)
+  && (match excl with [] => true | _ => negb (mem_cat c excl) end).
+
+(** an optional keyword argument overriding an inherited unknown-spec *)
+Definition ovr (o : option (option spec)) (dflt : option spec) : option spec :=
+  match o with Some v => v | None => dflt end.
+
+(** add_context_category: the new category goes to the documented index *)
+Definition s_add_cat (s : sdb) (c : cat) (ms es ss : list spec) (pl : placement) : sdb :=
+  mksdb (insert_at (place_index (map sc_name (s_cats s)) pl)
+                   (mkscat c (dict_of_specs ms) (dict_of_specs es) (dict_of_specs ss)) (s_cats s))
+        (s_unk_m s) (s_unk_e s) (s_unk_s s) (s_frozen s).
+
+(** extended_with, new category in front *)
+Definition s_extend_new (s : sdb) (c : cat) (ms es ss : list spec) (um ue us : option (option spec)) : sdb :=
+  mksdb (mkscat c (dict_of_specs ms) (dict_of_specs es) (dict_of_specs ss) :: s_cats s)
+        (ovr um (s_unk_m s)) (ovr ue (s_unk_e s)) (ovr us (s_unk_s s)) true.
+
+(** extended_with merging into the leading auto-generated category *)
+Definition s_extend_merge (s : sdb) (ms es ss : list spec) (um ue us : option (option spec)) : sdb :=
+  mksdb (match s_cats s with
+         | c0 :: r => mkscat (sc_name c0) (dict_update (sc_m c0) (dict_of_specs ms))
+                             (dict_update (sc_e c0) (dict_of_specs es))
+                             (dict_update (sc_s c0) (dict_of_specs ss)) :: r
+         | [] => []
+         end)
+        (ovr um (s_unk_m s)) (ovr ue (s_unk_e s)) (ovr us (s_unk_s s)) true.
